@@ -2014,9 +2014,11 @@ fn gen_c19_case(r: &mut Rng, stats: &mut HashMap<String, usize>) -> (String, Vec
 }
 
 fn gen_dft_case(r: &mut Rng, max_n: usize, max_thr: usize, stats: &mut HashMap<String, usize>) -> (String, Vec<String>) {
-    let n = r.range(1, max_n.max(1));
+    // now and then a register of 8 qubits (masks with several selected qubits at positions 6 and 7: control masks of
+    // 64 and more, strides beyond the small block sizes) whatever the size limit of the tier
+    let n = if r.chance(1, 25) { 8 } else { r.range(1, max_n.max(1)) };
     let all = (1usize << n) - 1;
-    let m = if r.chance(1, 3) { all } else { r.submask(all) };
+    let m = if r.chance(1, 3) { all } else if n == 8 && r.chance(1, 2) { 0b1100_0000 | r.submask(all) } else { r.submask(all) };
     let kind = r.below(2);
     *stats.entry(format!("dft.bits.{}", m.count_ones())).or_default() += 1;
     let thr = threads_choice(r, max_thr);
